@@ -253,6 +253,7 @@ def pool_suite(tier, cfgs, extra="", fams=("member",), need=()):
                 shapes = [
                     ("node", "constant", "--ns 16 --bs 64 --L 4 --B 2 --arrays 1,2", ("grew",)),  # array of ONE node: same boundary as a node
                     ("node", "constant", "--ns 16 --bs 96 --L 3 --B 2 --arrays 3 --max_states 400000", ("grew",)),
+                    ("node", "constant", "--ns 16 --bs 144 --L 3 --B 1 --arrays 3,4 --max_states 400000", ()),  # a too short run directly in front of the run that serves the array
                     ("node", "fixed", "--ns 16 --bs 96 --L 6 --B 2 --arrays 2", ("alloc_oom",)),
                     ("array", "constant", "--ns 16 --bs 80 --L 5 --B 3 --arrays 2", ("grew",)),
                     ("array", "constant", "--ns 16 --bs 96 --L 4 --B 2 --arrays 3 --objhi 1", ("grew",)),
@@ -288,7 +289,7 @@ def pool_suite(tier, cfgs, extra="", fams=("member",), need=()):
                     ]
             elif fam == "traits":
                 shapes = [
-                    ("node", "constant", "--fam traits --ns 16 --bs 64 --L 4 --B 2 --sizes 16,8 --tarrays 3x8,2x8", ("grew",)),  # 2x8: array whose total size is exactly one node
+                    ("node", "constant", "--fam traits --ns 16 --bs 64 --L 4 --B 2 --sizes 16,8 --tarrays 3x8,2x8,4x4", ("grew",)),  # 2x8, 4x4: arrays whose total size is exactly one node (more elements than nodes)
                     ("array", "constant", "--fam traits --ns 16 --bs 80 --L 4 --B 2 --sizes 16,5 --tarrays 3x8,5x4", ("grew",)),
                     ("small", "fixed", "--fam traits --ns 1 --bs 304 --L 3 --B 2 --sizes 1 --bulk 254 --arena 4096 --snap 1", ("alloc_oom",)),
                 ]
@@ -300,7 +301,7 @@ def pool_suite(tier, cfgs, extra="", fams=("member",), need=()):
                     ]
             else:  # composable
                 shapes = [
-                    ("node", "fixed", "--fam compose --ns 16 --bs 96 --L 6 --B 2 --sizes 16,8 --tarrays 3x8 --tryrel 1", ("try_returned_null",)),
+                    ("node", "fixed", "--fam compose --ns 16 --bs 96 --L 6 --B 2 --sizes 16,8,24 --tarrays 3x8 --tryrel 1", ("try_returned_null",)),  # 24: larger than a node, must be refused
                     ("array", "fixed", "--fam compose --ns 16 --bs 112 --L 6 --B 2 --sizes 16 --tarrays 3x8,2x16 --tryrel 1", ("try_returned_null",)),
                     ("small", "fixed", "--fam compose --ns 1 --bs 304 --L 3 --B 2 --sizes 1 --bulk 254 --arena 4096 --snap 1 --tryrel 1", ("try_returned_null",)),
                 ]
@@ -325,7 +326,7 @@ def coll_suite(tier, cfgs, extra="", fams=("member",), need=()):
                 ("array", "log2", "fixed", "--maxns 32 --bs 288 --sizes 8,16,20 --arrays 2x16,3x8 --L 4 --B 2", ("reserved_from_arena",)),
                 ("array", "identity", "constant", "--maxns 12 --bs 416 --sizes 8,12 --arrays 2x12 --L 3 --B 2", ("reserved_from_arena", "grew")),
                 ("array", "log2", "constant", "--maxns 16 --bs 192 --sizes 8 --arrays 3x5,19x5 --L 3 --B 2", ("reserved_from_arena", "grew")),
-                ("node", "log2", "fixed", "--maxns 16 --bs 224 --sizes 16 --arrays 2x16 --L 3 --B 2 --max_states 300000", ("reserved_from_arena",)),
+                ("node", "log2", "fixed", "--maxns 16 --bs 224 --sizes 16 --arrays 2x16,1x16 --L 3 --B 2 --max_states 300000", ("reserved_from_arena",)),  # 1x16: array of ONE element
                 ("small", "identity", "constant", "--maxns 4 --bs 2000 --sizes 1,4 --L 3 --B 2 --arena 8192", ("reserved_from_arena",)),
             ]
             if not q:
@@ -427,7 +428,7 @@ def arena_suite(tier, cfgs, extra="", need=()):
     out = []
     q = tier == "quick"
     for cfg in cfgs:
-        for src in ("constant", "fixed", "static", "virtual") + (() if q else ("growing",)):
+        for src in ("constant", "fixed", "static", "virtual", "growing"):
             for cached in (1, 0):
                 L = 4 if (q or src == "growing") else 5
                 B = 3 if src == "growing" else 4
@@ -454,7 +455,10 @@ def check_C01(prop, tier, only):
     jobs = (pool_suite(tier, c, extra="--tries 1", fams=("member", "traits")) + coll_suite(tier, c, extra="--tries 1", fams=("member",))
             + stack_suite(tier, c, extra="--tries 1") + iter_suite(tier, c) + arena_suite(tier, c[:1]) + static_suite(tier, c)
             # "... and moves": the same memory-safety monitors with move construct / move assign / swap in the alphabet
-            + iter_suite(tier, c[:1], extra="--moves 2") + pool_suite(tier, c[:1], extra="--moves 2") + stack_suite(tier, c[:1], extra="--moves 2"))
+            + iter_suite(tier, c[:1], extra="--moves 2") + pool_suite(tier, c[:1], extra="--moves 2") + stack_suite(tier, c[:1], extra="--moves 2")
+            + coll_suite(tier, c[:1], extra="--moves 2")
+            # the composable (try_) interface hands out memory as well
+            + pool_suite(tier, c[:1], extra="--tries 1", fams=("compose",)) + coll_suite(tier, c[:1], extra="--tries 1", fams=("compose",)))
     ej = [J("h_lowlevel", cfg, "--mode dfs", name=f"lowlevel-dfs[{cfg}]") for cfg in c]
     return run_explore_check(prop, tier, jobs, only, enum_jobs=ej, note=NOTE_BFS +
                              "low-level allocators (heap/malloc/new/virtual memory): all sequences up to depth 5/6 over 5 request shapes and releases (stateless DFS); "
@@ -527,7 +531,7 @@ def check_C06(prop, tier, only):
 
 def check_C07(prop, tier, only):
     c = cfgs_for(tier, thorough=("rel", "rwd", "dbg", "dbg16"))
-    jobs = iter_suite(tier, c)
+    jobs = iter_suite(tier, c) + iter_suite(tier, c[:1], extra="--moves 2")  # the active region index has to move with the object
     for j in jobs:
         j["own"] = ["M-disjoint", "M-content", "M-inside"]
     return run_explore_check(prop, tier, jobs, only, note=NOTE_BFS +
@@ -599,6 +603,8 @@ def check_C16(prop, tier, only):
     # valid histories only (no false reports), incl. the configuration without any check
     c = ["rwd", "dbg"] if q else ["rel", "rwd", "dbg"]
     jobs += pool_suite("quick", c, extra="--tries 1") + coll_suite("quick", c) + stack_suite("quick", c) + iter_suite("quick", c[:1]) + arena_suite("quick", c[-1:])
+    # valid histories with moves / swaps: blocks (and cached blocks) must go back to the source they came from, a LIFO-only source reports anything else
+    jobs += arena_suite("quick", c[-1:], extra="--moves 2") + stack_suite("quick", c[-1:], extra="--moves 2")
     enum_jobs = [J("h_badblock", cfg, "", name=f"badblock[{cfg}]") for cfg in (["rwd", "dbg", "chk"] + ([] if q else ["rel"]))]
     return run_explore_check(prop, tier, jobs, only, enum_jobs=enum_jobs, note=NOTE_BFS +
                              "positive part: at every state reached, every applicable invalid call (release of an already free node at list position 0..3 / last / middle; "
@@ -612,6 +618,9 @@ def check_C18(prop, tier, only):
     import grids
     jobs = check_C18_explore_jobs(tier)
     for j in jobs:
+        if j["h"] in ("h_pool", "h_coll"):
+            # "capacity_left() ... are truthful": the counter must equal the nodes that can really be reached from the list head
+            j["own"] = ["M-freelist"]
         if j["h"] in ("h_stack", "h_iter", "h_static"):
             # bump allocators: memory handed out beyond the block / region is capacity that was never there
             j["own"] = ["M-inside"]
